@@ -468,7 +468,7 @@ func (a *afCtx) check() {
 			c.Violation(s.fn, P.InstrPos(call), "error of "+name+" dropped", fname+" performs a step of the atomic write but has no error result")
 			continue
 		}
-		dr := errDropCheck(s.fn, call)
+		dr := errDropCheckMode(s.fn, call, true) // the steps are writes: no classification of their error licenses success
 		switch {
 		case dr.overflow:
 			a.undecided = true
